@@ -24,6 +24,7 @@ import (
 	"fmt"
 	"math/big"
 	"os"
+	"os/exec"
 	"sort"
 	"strings"
 	"sync"
@@ -147,7 +148,12 @@ func Run(r *vh.Run) {
 		go func(i int) {
 			defer wg.Done()
 			defer func() { <-sem }()
-			cases[i] = runSpec(specs[i], fmt.Sprintf("127.%d.%d", 70+(i/200)%50, i%200+1))
+			ip := fmt.Sprintf("127.%d.%d", 70+(i/200)%50, i%200+1)
+			if len(specs[i].oldStore) > 0 && os.Getenv("VERIF_C12_CHILD") == "" {
+				cases[i] = isolated(r, specs[i])
+			} else {
+				cases[i] = runSpec(specs[i], ip)
+			}
 		}(i)
 	}
 	wg.Wait()
@@ -392,6 +398,62 @@ func randomSpec(rng *vh.RNG, i int) spec {
 		s.connTimeout = time.Duration(1000+rng.Intn(800)) * time.Millisecond
 	}
 	return s
+}
+
+// isolated runs a spec in a child process of the harness: a node that panics in its block-ingestion
+// goroutine (which has no recover) takes the whole process down, and that must be an observation
+// ("process-crashed") with the spec as failing input, not the end of the run. Used for the specs
+// with nodes on old-format stores, where an unreadable record shows up exactly like that.
+func isolated(r *vh.Run, s spec) *vh.Case {
+	c := &vh.Case{Name: s.name, Nontrivial: true, Key: "isolated:" + s.name, Tags: []string{"isolated:child-process", "store:old-format-block-records", "topo:" + s.topo}}
+	dir, err := os.MkdirTemp("", "c12child")
+	if err != nil {
+		c.Oracle("harness-isolate", "%v", err)
+		return c
+	}
+	defer os.RemoveAll(dir)
+	ctx, cancel := context.WithTimeout(context.Background(), 200*time.Second)
+	defer cancel()
+	var out []byte
+	code := 0
+	for attempt := 0; attempt < 4; attempt++ {
+		cmd := exec.CommandContext(ctx, os.Args[0], "C12", "-tier", r.Tier, "-seed", fmt.Sprint(r.Seed), "-drv", r.Drv, "-out", dir, "-only", s.name)
+		cmd.Env = append(os.Environ(), "VERIF_C12_CHILD=1")
+		out, _ = cmd.CombinedOutput()
+		code = cmd.ProcessState.ExitCode()
+		// an abnormal exit that is not a Go panic / runtime fatal error is the harness's own trouble
+		// (e.g. the model driver binary being relinked by a concurrent build): try again
+		if code == 0 || code == 1 || strings.Contains(string(out), "panic:") || strings.Contains(string(out), "fatal error:") {
+			break
+		}
+		time.Sleep(3 * time.Second)
+	}
+	c.Op("isolated "+s.name, fmt.Sprintf("exit %d", code))
+	text := string(out)
+	switch code {
+	case 0:
+	case 1:
+		for _, l := range strings.Split(text, "\n") {
+			t := strings.TrimSpace(l)
+			for _, kind := range []string{"oracle", "corr"} {
+				if strings.HasPrefix(t, kind+"[") {
+					if i := strings.Index(t, "]"); i > 0 {
+						c.Fail(kind, t[len(kind)+1:i], t[i+1:])
+					}
+				}
+			}
+		}
+		if len(c.Fails) == 0 && !strings.Contains(text, "KNOWN-FINDING") {
+			c.Oracle("child-failed", "%s", text[:min(len(text), 600)])
+		}
+	default:
+		msg := text
+		if i := strings.Index(text, "panic:"); i >= 0 {
+			msg = text[i:]
+		}
+		c.Oracle("process-crashed", "the node process died (exit %d) while running this spec: %s", code, msg[:min(len(msg), 900)])
+	}
+	return c
 }
 
 type nodeRec struct {
@@ -888,6 +950,7 @@ func runSpec(s spec, ip string) *vh.Case {
 		if msg := nr.trace.Stuck(); msg != "" {
 			c.Oracle("listener-called-with-lock-held", "node %d: %s", i, msg)
 		}
+		nr.n.Store.WaitIdle()
 		if msg := nr.n.Store.Stuck(); msg != "" {
 			c.Oracle("peer-store-called-with-lock-held", "node %d: %s", i, msg)
 		}
